@@ -126,6 +126,9 @@ trait Col {
     fn get(&self, i: usize) -> Option<Self::V>;
     fn to_vec(&self) -> Vec<Self::V>;
     fn range(&self, a: usize, b: usize) -> Vec<Self::V>;
+    /// the same window consumed through the `fold` family of iterator methods (count, last, fold):
+    /// (count, last element, number of items seen by fold); None = not applicable to this kind
+    fn range_folds(&self, _a: usize, _b: usize) -> Option<(usize, Option<Self::V>, usize)> { None }
     /// runs as the iterator reports them, expanded by the caller
     fn runs(&self) -> Vec<(usize, Self::V)>;
     fn find(&self, v: &Self::V) -> Vec<usize>;
@@ -154,6 +157,9 @@ impl<T: ColumnValueRef + HV> Col for Plain<T> {
     fn get(&self, i: usize) -> Option<T> { self.0.get(i).map(T::to_owned) }
     fn to_vec(&self) -> Vec<T> { self.0.to_vec().into_iter().map(T::to_owned).collect() }
     fn range(&self, a: usize, b: usize) -> Vec<T> { self.0.iter_range(a..b).map(T::to_owned).collect() }
+    fn range_folds(&self, a: usize, b: usize) -> Option<(usize, Option<T>, usize)> {
+        Some((self.0.iter_range(a..b).count(), self.0.iter_range(a..b).last().map(T::to_owned), self.0.iter_range(a..b).fold(0usize, |n, _| n + 1)))
+    }
     fn runs(&self) -> Vec<(usize, T)> { self.0.iter().runs().map(|r| (r.count, T::to_owned(r.value))).collect() }
     fn find(&self, v: &T) -> Vec<usize> {
         let mut it = self.0.iter();
@@ -220,6 +226,9 @@ impl<T: PreKind> Col for Pre<T> {
     fn get(&self, i: usize) -> Option<T> { self.0.get(i).map(|pv| T::to_owned(pv.value)) }
     fn to_vec(&self) -> Vec<T> { self.0.to_vec().into_iter().map(T::to_owned).collect() }
     fn range(&self, a: usize, b: usize) -> Vec<T> { self.0.iter_range(a..b).map(|pv| T::to_owned(pv.value)).collect() }
+    fn range_folds(&self, a: usize, b: usize) -> Option<(usize, Option<T>, usize)> {
+        Some((self.0.values().iter_range(a..b).count(), self.0.values().iter_range(a..b).last().map(T::to_owned), self.0.values().iter_range(a..b).fold(0usize, |n, _| n + 1)))
+    }
     fn runs(&self) -> Vec<(usize, T)> { self.0.iter().runs().map(|r| (r.count, T::to_owned(r.value))).collect() }
     fn find(&self, v: &T) -> Vec<usize> {
         let mut it = self.0.values().iter();
@@ -313,6 +322,9 @@ impl<T: DeltaKind> Col for Delta<T> {
     fn get(&self, i: usize) -> Option<T> { self.0.get(i) }
     fn to_vec(&self) -> Vec<T> { self.0.to_vec() }
     fn range(&self, a: usize, b: usize) -> Vec<T> { self.0.iter_range(a..b).collect() }
+    fn range_folds(&self, a: usize, b: usize) -> Option<(usize, Option<T>, usize)> {
+        Some((self.0.iter_range(a..b).count(), self.0.iter_range(a..b).last(), self.0.iter_range(a..b).fold(0usize, |n, _| n + 1)))
+    }
     fn runs(&self) -> Vec<(usize, T)> {
         // DeltaIter::next_run reports runs of equal *deltas*; the value-level view is the iterator
         self.0.iter().map(|v| (1, v)).collect()
@@ -419,6 +431,16 @@ fn check_against_vec<C: Col>(c: &C, vec: &[C::V], after: &str, fails: &mut Vec<S
     let (a, b) = (n / 3, (2 * n) / 3 + 1);
     let want: Vec<C::V> = vec[a.min(n)..b.min(n).max(a.min(n))].to_vec();
     if c.range(a, b) != want { fails.push(format!("! C34 after {} iter_range({}..{}) differs from Vec", after, a, b)); }
+    // windows that end inside runs, consumed through count / last / fold
+    for (a, b) in [(0usize, 3usize), (a, b), (1, n.saturating_sub(1)), (n / 2, n / 2 + 2), (n / 4, n / 4 + 5), (0, n / 2 + 1)] {
+        let (a, b) = (a.min(n), b.min(n).max(a.min(n)));
+        if let Some((cnt, last, folded)) = c.range_folds(a, b) {
+            let w = &vec[a..b];
+            if cnt != w.len() || folded != w.len() || last != w.last().cloned() {
+                fails.push(format!("! C34 after {} iter_range({}..{}) consumed through count/last/fold gives count {} fold {} (Vec window has {} items) or a different last item", after, a, b, cnt, folded, w.len()));
+            }
+        }
+    }
     let mut expanded: Vec<C::V> = vec![];
     for (k, v) in c.runs() { for _ in 0..k { expanded.push(v.clone()); } }
     if expanded != vec { fails.push(format!("! C34 after {} run iteration differs from Vec", after)); }
